@@ -81,6 +81,22 @@ func vecReplay(in io.Reader, raw bool, args []string) (*Summary, error) {
 					sum.viol("Map", c, "Map/Vectorize element %d", i)
 				}
 			}
+			// one vectorized function used repeatedly on inputs of the same length: every result is a value of its own
+			g := vec.Vectorize(f)
+			r1 := g(got)
+			k1 := append([]float64{}, r1...)
+			rev := make([]float64, len(got))
+			for i := range got {
+				rev[i] = got[len(got)-1-i] + 1
+			}
+			r2 := g(rev)
+			r3 := g(r1) // a result fed back in
+			for i := range got {
+				if r1[i] != k1[i] || r2[i] != f(rev[i]) || r3[i] != f(k1[i]) {
+					sum.viol("Vectorize-reuse", c, "a second call of the same vectorized function disturbed an earlier result (element %d: %v, was %v; second result %v want %v)", i, r1[i], k1[i], r2[i], f(rev[i]))
+					break
+				}
+			}
 			ga, okg := guarded(got) // a first argument with spare capacity must not be appended to
 			c2 := vec.Concat(ga, m)
 			c3 := vec.Concat(ga, got[:1])
